@@ -66,6 +66,39 @@ def reviewedCachedProperties : List ((Nat × Nat) × CacheTag) :=
    ((k! "parser/jsonschema.py", k! "JsonSchemaObject.type_has_null"), .perRunInstance),
    ((k! "parser/jsonschema.py", k! "JsonSchemaParser.schema_paths"), .perRunInstance)]
 
+inductive ReturnTag where
+  | enumMember              -- the result is a member of an Enum: one immutable singleton per value
+  | sharedClassNeverWritten -- an instance of a class of `knownSharedClasses`: `memoised_values_never_mutated` covers every store
+  | templateOnlyRendered    -- a compiled Jinja2 Template: callers only call `.render(**kwargs)`, which keeps no state on it
+  | noCaller                -- a mutable result, but the function is called from nowhere (checked: `callers = 0`)
+  deriving Repr, DecidableEq
+
+/-- return annotations of process-wide memoised functions that denote immutable values -/
+def immutableReturns : List Nat := [k! "str", k! "bool", k! "int", k! "float", k! "bytes"]
+
+/-- every process-wide memoised function (`lru_cache` / `cache`) whose result is not of an immutable type: ((file, function), tag).
+A cache hands the SAME object to every caller in every later generate() call: a result that a caller writes to (a dict, a
+list, a loaded document) makes a later call see what an earlier call left (the premise `Sound` of `cache_transparent`).
+Checked at run time as well: every object handed out by such a function is compared with its snapshot after the calls. -/
+def reviewedCacheReturns : List ((Nat × Nat) × ReturnTag) :=
+  [((k! "imports.py", k! "Import.from_full_path"), .sharedClassNeverWritten),
+   ((k! "model/base.py", k! "get_template"), .templateOnlyRendered),
+   ((k! "parser/jsonschema.py", k! "get_ref_type"), .enumMember),
+   -- `-> list[str]`, dead code since the union handling was rewritten
+   ((k! "types.py", k! "_remove_none_from_type"), .noCaller)]
+
+inductive ListingTag where
+  | sortedByBasename           -- `sorted(…, key=lambda p: p.name)`: independent of the listing order iff basenames are pairwise
+                               -- distinct (`iterSource_perm_invariant`, refuted otherwise: known finding C08-basename)
+  | firstFileDecidesInputType  -- `get_first_file`: only reached for a directory input with input_file_type=Auto; the first
+                               -- listed file decides the inferred type (known finding C08-auto-dir when the files differ in type)
+  deriving Repr, DecidableEq
+
+/-- every directory-listing call that is not `sorted(` in the natural (total) order of its entries: ((file, function, call), tag) -/
+def reviewedListingSites : List ((Nat × Nat × Nat) × ListingTag) :=
+  [((k! "parser/base.py", k! "Parser.iter_source", k! "self.source.rglob"), .sortedByBasename),
+   ((k! "__init__.py", k! "get_first_file", k! "path.rglob"), .firstFileDecidesInputType)]
+
 inductive StateTag where
   | pydanticFieldDefault   -- default of a pydantic field: copied for every instance, the class-level object is never handed out
   | constantNeverMutated   -- used for membership / iteration only (checked at run time: unchanged after generate() calls)
